@@ -202,8 +202,14 @@ def _check_set(cell, names, vm, ctx):
     ctors = {
         "array_dict": lambda: vector.array(dict(cols)),
         "array_dtype": lambda: vector.array(list(zip(*[cols[n] for n in names])), dtype=[(n, numpy.float64) for n in names]),
+        # the dtype may be passed positionally, like numpy.array(object, dtype)
+        "array_dtype_pos": lambda: vector.array(list(zip(*[cols[n] for n in names])), [(n, numpy.float64) for n in names]),
+        "arr_alias": lambda: vector.arr(dict(cols)),
         "zip": lambda: vector.zip(dict(cols)),
+        "zip_ak": lambda: vector.zip({n: ak.Array(cols[n]) for n in names}),
         "Array": lambda: vector.Array([{n: float(cols[n][i]) for n in names} for i in range(3)]),
+        "Array_from_ak": lambda: vector.Array(ak.Array([{n: float(cols[n][i]) for n in names} for i in range(3)])),
+        "awk_alias": lambda: vector.awk([{n: float(cols[n][i]) for n in names} for i in range(3)]),
     }
     for cn, f in ctors.items():
         ctx.evaluation()
